@@ -327,50 +327,127 @@ def predicate(case):
                       "(was %s): its response will ack the wrong add" %
                       (o["incoming_htlc"], o["source_ref_replay"], o["source_ref_first"])))
 
-    # --- quiescent end state
+    # --- exactly-once hand-over / exactly one response (also C07's switch stage)
+    fails += [("C08_quiescent_balance", m) for m in at_most_once(case)]
+
+    # --- quiescent end state: before the closing restarts (end1) and after them (end)
+    if case.get("end1"):
+        fails += end_state_fails(case, case["end1"], case["circuits1"], "before the closing restarts", False)
+        if not case["quiescent"]:
+            fails.append(("C08_quiescent_balance",
+                          "everything was resolved, but after restarting every link and the forwarder's "
+                          "switch the network is not quiescent any more: %s" % case["why"]))
     if case["quiescent"]:
-        end = {e["name"]: e for e in case["end"]}
-        ini = {e["name"]: e for e in case["init"]}
-        for nm, e in end.items():
-            if e["active"] != 0 or not e["clean"]:
-                fails.append(("C08_quiescent_balance", "%s has dangling htlcs at quiescence" % nm))
-            if e["local"] + e["remote"] != ini[nm]["local"] + ini[nm]["remote"] or e["fee"] != ini[nm]["fee"]:
-                fails.append(("C08_quiescent_balance", "%s: channel value not conserved" % nm))
-        for a, b in (("alice", "bob1"), ("bob2", "carol")):
-            if end[a]["local"] != end[b]["remote"] or end[a]["remote"] != end[b]["local"]:
-                fails.append(("C08_quiescent_balance", "%s/%s disagree on balances" % (a, b)))
-        for nm, (p_, o_) in zip(("alice", "bob", "carol"), case["circuits"]):
-            if p_ != 0 or o_ != 0:
-                fails.append(("C08_quiescent_balance",
-                              "%s circuit map not empty at quiescence (pending=%d open=%d)" % (nm, p_, o_)))
-        ok = [p for p in case["pays"] if p["result"] == "settled"]
-        fees = sum(p["htlc_amt"] - p["amt"] for p in ok)
-        d_bob = (end["bob1"]["local"] + end["bob2"]["local"]) - (ini["bob1"]["local"] + ini["bob2"]["local"])
-        if d_bob != fees:
-            fails.append(("C08_quiescent_balance",
-                          "forwarder total changed by %d msat, fees of succeeded forwards are %d msat"
-                          % (d_bob, fees)))
-        d_alice = end["alice"]["local"] - ini["alice"]["local"]
-        d_carol = end["carol"]["local"] - ini["carol"]["local"]
-        x_alice = sum(p["amt"] for p in ok if p["dir"] == "CA") - sum(p["htlc_amt"] for p in ok if p["dir"] == "AC")
-        x_carol = sum(p["amt"] for p in ok if p["dir"] == "AC") - sum(p["htlc_amt"] for p in ok if p["dir"] == "CA")
-        if d_alice != x_alice or d_carol != x_carol:
-            fails.append(("C08_quiescent_balance",
-                          "sender debits / receiver credits off: alice %d (expected %d), carol %d (expected %d)"
-                          % (d_alice, x_alice, d_carol, x_carol)))
-        for p in case["pays"]:
-            if p["result"] == "settled_wrong_preimage":
-                fails.append(("C08_settle_needs_preimage", "payment %d settled with a foreign preimage" % p["idx"]))
-            if p["result"] == "settled" and p["kind"] in FAIL_KINDS:
-                fails.append(("C08_quiescent_balance", "payment %d (%s) must not succeed" % (p["idx"], p["kind"])))
-            if p["result"] == "settled" and p["invoice"] != "Settled":
-                fails.append(("C08_quiescent_balance",
-                              "payment %d reported settled, invoice is %s" % (p["idx"], p["invoice"])))
-            if p["result"] != "settled" and p["invoice"] == "Settled" and p["result"] != "timeout":
-                fails.append(("C08_quiescent_balance",
-                              "payment %d reported %s, but the receiver's invoice is Settled"
-                              % (p["idx"], p["result"])))
+        fails += end_state_fails(case, case["end"], case["circuits"],
+                                 "after the closing restarts" if case.get("end1") else "at quiescence", True)
     return fails
+
+
+def end_state_fails(case, end_list, circuits, when, final):
+    fails = []
+    end = {e["name"]: e for e in end_list}
+    ini = {e["name"]: e for e in case["init"]}
+    for nm, e in end.items():
+        if e["active"] != 0 or not e["clean"]:
+            fails.append(("C08_quiescent_balance", "%s has dangling htlcs %s" % (nm, when)))
+        if e["local"] + e["remote"] != ini[nm]["local"] + ini[nm]["remote"] or e["fee"] != ini[nm]["fee"]:
+            fails.append(("C08_quiescent_balance", "%s: channel value not conserved %s" % (nm, when)))
+    for a, b in (("alice", "bob1"), ("bob2", "carol")):
+        if end[a]["local"] != end[b]["remote"] or end[a]["remote"] != end[b]["local"]:
+            fails.append(("C08_quiescent_balance", "%s/%s disagree on balances %s" % (a, b, when)))
+    for nm, (p_, o_) in zip(("alice", "bob", "carol"), circuits):
+        if p_ != 0 or o_ != 0:
+            fails.append(("C08_quiescent_balance",
+                          "%s circuit map not empty %s (pending=%d open=%d)" % (nm, when, p_, o_)))
+    ok = [p for p in case["pays"] if p["result"] == "settled"]
+    fees = sum(p["htlc_amt"] - p["amt"] for p in ok)
+    d_bob = (end["bob1"]["local"] + end["bob2"]["local"]) - (ini["bob1"]["local"] + ini["bob2"]["local"])
+    if d_bob != fees:
+        fails.append(("C08_quiescent_balance",
+                      "forwarder total changed by %d msat %s, fees of succeeded forwards are %d msat"
+                      % (d_bob, when, fees)))
+    d_alice = end["alice"]["local"] - ini["alice"]["local"]
+    d_carol = end["carol"]["local"] - ini["carol"]["local"]
+    x_alice = sum(p["amt"] for p in ok if p["dir"] == "CA") - sum(p["htlc_amt"] for p in ok if p["dir"] == "AC")
+    x_carol = sum(p["amt"] for p in ok if p["dir"] == "AC") - sum(p["htlc_amt"] for p in ok if p["dir"] == "CA")
+    if d_alice != x_alice or d_carol != x_carol:
+        fails.append(("C08_quiescent_balance",
+                      "sender debits / receiver credits off %s: alice %d (expected %d), carol %d (expected %d)"
+                      % (when, d_alice, x_alice, d_carol, x_carol)))
+    if not final:
+        return fails
+    for p in case["pays"]:
+        if p["result"] == "settled_wrong_preimage":
+            fails.append(("C08_settle_needs_preimage", "payment %d settled with a foreign preimage" % p["idx"]))
+        if p["result"] == "settled" and p["kind"] in FAIL_KINDS:
+            fails.append(("C08_quiescent_balance", "payment %d (%s) must not succeed" % (p["idx"], p["kind"])))
+        if p["result"] == "settled" and p["invoice"] != "Settled":
+            fails.append(("C08_quiescent_balance",
+                          "payment %d reported settled, invoice is %s" % (p["idx"], p["invoice"])))
+        if p["result"] != "settled" and p["invoice"] == "Settled" and p["result"] != "timeout":
+            fails.append(("C08_quiescent_balance",
+                          "payment %d reported %s, but the receiver's invoice is Settled"
+                          % (p["idx"], p["result"])))
+        if p["result"] in ("failed", "send_err") and p.get("invoice_final") == "Settled":
+            fails.append(("C08_quiescent_balance",
+                          "payment %d was reported %s to the sender, but after the closing restarts the "
+                          "receiver's invoice is Settled" % (p["idx"], p["result"])))
+    return fails
+
+
+def at_most_once(case):
+    """Switch-level at-most-once clauses (C07 at the level of the running switch, C08 'nothing is
+    forwarded twice'), evaluated on the forwarder's trace.  Returns messages.
+    (1) an incoming HTLC is handed to an outgoing link (AddHTLC succeeded: 'n fwd') a second time
+        only if the first outgoing add was LOST: its link (or the node) restarted before the link
+        signed it;
+    (2) never after its circuit was torn down with a response (FailCircuit / CloseCircuit succeeded
+        and DeleteCircuits removed it);
+    (3) at most one response per incoming HTLC is accepted (CloseCircuit / FailCircuit succeed)
+        between two restarts of the switch."""
+    ev = case["events"]
+    out = []
+    fw, resp_at, torn = {}, {}, {}
+    for i, e in enumerate(ev):
+        if e[0] == "n" and e[1] == "fwd":
+            fw.setdefault((e[3], e[4]), []).append((i, e[5], e[6]))
+        elif e[0] == "c" and e[1] == "close" and e[4] == "":
+            resp_at.setdefault(tuple(e[3]), []).append(i)
+        elif e[0] == "c" and e[1] == "fail" and e[3] == "":
+            resp_at.setdefault(tuple(e[2]), []).append(i)
+        elif e[0] == "c" and e[1] == "delete" and not e[3]:
+            for k in e[2]:
+                k = tuple(k)
+                if k in resp_at and k not in torn:
+                    torn[k] = i
+
+    def lost(i1, och, i2):
+        for j in range(i1 + 1, i2):
+            x = ev[j]
+            if x[0] == "g" and x[1] == och:
+                return False
+            if x[0] == "x" and (x[1] == "restart" or (x[1] == "linkrestart" and x[2] == och)):
+                return True
+        return False
+
+    for k, lst in fw.items():
+        for (i1, och, oid), (i2, och2, oid2) in zip(lst, lst[1:]):
+            if not lost(i1, och, i2):
+                out.append("incoming htlc %s handed to an outgoing channel twice: outgoing htlc %s (event %d) "
+                           "and again %s (event %d), the first was not lost in a restart of its link"
+                           % (list(k), [och, oid], i1, [och2, oid2], i2))
+        if k in torn:
+            late = [(i, och, oid) for (i, och, oid) in lst if i > torn[k]]
+            if late:
+                out.append("incoming htlc %s handed to outgoing channel %s (event %d) after its circuit was "
+                           "torn down with a response (event %d)"
+                           % (list(k), [late[0][1], late[0][2]], late[0][0], torn[k]))
+    for k, lst in resp_at.items():
+        for i1, i2 in zip(lst, lst[1:]):
+            if not any(ev[j][0] == "x" and ev[j][1] == "restart" for j in range(i1 + 1, i2)):
+                out.append("two responses accepted for incoming htlc %s (events %d and %d) without a restart "
+                           "of the switch in between" % (list(k), i1, i2))
+    return out
 
 
 def source_ref_changes(case):
@@ -454,6 +531,63 @@ def slim(case, around=None):
     return c
 
 
+def run_switch_stage(ctx):
+    """Extra stage of C07 ("the switch forwards each HTLC at most once and relays at most one
+    response") at the level of the RUNNING switch: the three-hop harness (directed disconnect /
+    bounce / replay scenarios + a few random fault batches, each closed by a restart of every link
+    and of the forwarder's switch) is run and ONLY the at-most-once clauses are evaluated.
+    Coverage goes to ctx.cov["switch_stage"]; violations are reported on ctx (i.e. under C07)."""
+    import shutil
+    puid = ctx.uid("_sw_p%d" % os.getpid())
+    env = {"VERIF_CASES": 12 if ctx.thorough else 3}
+    rc, trace, out = run_harness(puid, "htlcswitch", HARNESS, "^TestVerifThreeHop$", env=env, timeout=2400)
+    rows = read_jsonl(trace)
+    shutil.rmtree(os.path.join(os.path.dirname(trace), "overlay", puid), ignore_errors=True)
+    if rc != 0 or not rows:
+        ctx.violation("harness_failed", "TestVerifThreeHop (switch stage)", {"log": out[-4000:]},
+                      signature="switch-stage harness", failing_input=False)
+        ctx.cov["switch_stage"] = {"evaluations": 0}
+        return
+    try:
+        os.remove(trace)
+    except OSError:
+        pass
+    nbad = 0
+    for c in rows:
+        msgs = at_most_once(c)
+        if msgs:
+            nbad += 1
+            if nbad <= 2:
+                ctx.violation("impl_violates_predicate", "C07_add_once / C07_one_response_per_run (switch stage)",
+                              {"case": slim(c), "fails": msgs[:10]},
+                              signature="switch-stage at-most-once: %s" % msgs[0][:70])
+    fw = sum(1 for c in rows for e in c["events"] if e[0] == "n" and e[1] == "fwd")
+    ctx.cov["switch_stage"] = {
+        "what": "three-hop fixture (real Switch, circuit map, links, channels) with injected link restarts, "
+                "switch restarts, message loss and the directed scenarios (disconnect in the middle of a "
+                "ForwardPackets batch, forward bounced by the outgoing link, replay of a partially acked "
+                "package); every batch closed by a restart of every link and of the forwarder's switch; "
+                "predicate: hand-over of an incoming HTLC to an outgoing link at most once unless the first "
+                "add was lost unsigned, never after the circuit was torn down with a response, at most one "
+                "response accepted per incoming HTLC between switch restarts",
+        "evaluations": len(rows),
+        "scenarios": {c["fault"]: sum(1 for x in rows if x["fault"] == c["fault"]) for c in rows},
+        "incoming_htlcs_forwarded": len({(c["case"], e[3], e[4]) for c in rows for e in c["events"]
+                                         if e[0] == "n" and e[1] == "fwd"}),
+        "hand_overs_to_an_outgoing_link": fw,
+        "replayed_adds_after_restarts": sum(1 for c in rows for e in c["events"]
+                                            if e[0] == "p" and e[2] == "add" and e[7]),
+        "forwards_bounced_by_the_outgoing_link": sum(1 for c in rows for e in c["events"]
+                                                     if e[0] == "c" and e[1] == "fail" and e[3] == ""),
+        "responses_accepted": sum(1 for c in rows for e in c["events"]
+                                  if e[0] == "c" and ((e[1] == "close" and e[4] == "") or
+                                                      (e[1] == "fail" and e[3] == ""))),
+        "restarts": sum(1 for c in rows for e in c["events"]
+                        if e[0] == "x" and e[1] in ("restart", "linkrestart")),
+        "predicate_failures": nbad,
+    }
+
+
 def run(ctx):
     pr = ctx.proof_stage(MODULE, THEOREMS, TARGETS, extra_trusted=[
         "payment hash function H is a Section variable: theorems hold for any H; execution "
@@ -477,7 +611,7 @@ def run(ctx):
     rows = read_jsonl(trace)
     import shutil
     shutil.rmtree(os.path.join(os.path.dirname(trace), "overlay", puid), ignore_errors=True)
-    if rc == 0 and rows:
+    if rc == 0 and rows and not os.environ.get("VERIF_C08_KEEP"):
         try:
             os.remove(trace)
         except OSError:
@@ -593,6 +727,11 @@ def run(ctx):
         "quiescent_cases": sum(1 for c in rows if c["quiescent"]),
         "partially_acked_package_replays": sum(partial_replays(c) for c in rows),
         "messages_lost_or_stale": sum(c.get("dropped", 0) for c in rows),
+        "forwards_bounced_by_the_outgoing_link": sum(1 for c in rows for e in c["events"]
+                                                     if e[0] == "c" and e[1] == "fail" and e[3] == ""),
+        "batches_closed_by_restarting_everything": sum(1 for c in rows if c.get("end1")),
+        "adds_replayed_after_restarts": sum(1 for c in rows for e in c["events"]
+                                            if e[0] == "p" and e[2] == "add" and e[7]),
         "faults_injected": sum(1 for c in rows for f in (c.get("faults") or []) if f["fired"] != "none"),
         "fault_triggers": {k: sum(1 for c in rows for f in (c.get("faults") or []) if f["fired"] == k)
                            for k in ("trigger", "timer", "none")},
